@@ -1,4 +1,7 @@
 ENGINES = [
+    {"name": "wire (E5)", "path": "harness/src/e5.rs", "serves_properties": ["C15", "C16"],
+     "kind_free_text": "the real warp router on loopback TCP in front of the real InternalAPI (C15, raw-socket client with structured mutations) or a recording/scripted gRPC stub "
+                       "(C16, the plugin's real request/response code as the client)"},
     {"name": "sched (E2)", "path": "harness/src/{e2,sched}.rs", "serves_properties": ["C10", "C11"],
      "kind_free_text": "E1's tower driven by 2-3 real OS threads; an observer behind the hooked Mutex/Condvar mediates every lock operation: serialising seeded "
                        "PCT scheduler, scripted sequential reference schedules, free-running mode, wait-for / stuck detection, lock-order graph"},
@@ -54,6 +57,18 @@ META = {
         "technique": "fault injection (node outage at every RPC index, block-source failures) with the tower's calls on scheduler-observed threads; bounded-progress monitor in polls and virtual clock ticks",
         "text": "Every node RPC of each sampled history is an outage start; blocked states are observed through the lock/condvar observer rather than inferred from timeouts. Held on all enumerated faults.",
         "note": "Unbounded liveness is restated as bounded progress; histories are sampled; one outage per run.",
+    },
+    "C15": {
+        "engine": "wire (E5)", "level": "exploration", "design_ref": "DESIGN.md §4 C15",
+        "technique": "runtime monitoring of the real HTTP front-end under structured-mutation fuzzing: per-request oracle on status, body, error code and database content",
+        "text": "Thousands of generated requests per run against the real router + InternalAPI; every reply is checked against the documented status/code sets and the database must be untouched after every non-200. Held on everything sent.",
+        "note": "Sequential requests with well-formed HTTP framing; header games excluded by the property.",
+    },
+    "C16": {
+        "engine": "wire (E5)", "level": "exploration", "design_ref": "DESIGN.md §4 C16",
+        "technique": "differential runtime check: generated values sent by the plugin's real client code through the real router to a recording stub and back, compared field by field",
+        "text": "Both directions of every message type are exercised through the real code on both sides; signed layouts are checked against an independent parser. Held on all generated messages.",
+        "note": "Sampled values biased to boundaries; body-size limits respected.",
     },
     "C17": {
         "engine": "pure (E6)", "level": "exploration", "design_ref": "DESIGN.md §4 C17",
